@@ -5,7 +5,9 @@ modified states, `Session._new` / `_deleted` strong; collection after every step
 no collection at all).  Theorems: lean/SaVerif/Props/C48.lean (every history is
 observationally the same with and without garbage collection).
 
-Real side: a real Session (autoflush off) over SQLite.  The harness plays the
+Real side: a real Session over SQLite with autoflush off (Session(autoflush=False), or an
+autoflush Session used inside a no_autoflush block), with SAVEPOINTs: begin_nested(), rollback
+/ release of the savepoint, a failing flush inside it (rolled back to the savepoint only).  The harness plays the
 application: it holds objects in a dict, `drop` removes its reference, and
 `gc.collect()` runs after every operation (CPython frees most objects at once
 anyway; the explicit collection makes cycles deterministic).
@@ -16,7 +18,12 @@ Direct oracle, independent of the Lean model:
     after every flush / commit / rollback and the same values from every get;
  2. reference dict: every set / add / delete the application performed (through a
     reference it held at that moment) must be in the table after the next successful
-    flush, whatever was dropped and collected in between.
+    flush, whatever was dropped and collected in between; begin_nested() counts as a flush
+    (it flushes whatever the autoflush setting), a rolled back savepoint discards exactly the
+    changes made inside it: the table then is what the application had changed before
+    begin_nested(), and the later commit writes that.
+Autoflush ON is not part of the histories: a get that misses the identity map then flushes,
+so a collection legitimately moves the point where a flush (and its error) happens.
 """
 import gc
 import os
@@ -29,7 +36,7 @@ LEVEL = "proof"
 LEAN = ["SaVerif.Props.C48"]
 META = {
     "text": "Lean theorems for ALL histories without a rollback (simulation proved by induction over the operation list): the session with garbage collection after every step and the session in which nothing is ever collected produce the same outputs (values read, flush results) and the same database (gc_unobservable_partial, gc_same_db_partial); the full statement is false - SessionTransaction._new is weak, so an instance re-loaded after the inserted one was collected survives a rollback as a phantom (gc_unobservable_counterexample, replayed on the real code as a known finding); a state that sits in `_modified` stays strongly referenced even when its history is taken away by a partial expire of exactly the modified attribute or never materialised because the change was refused outside a transaction with autobegin=False (partial_expire_keeps_strong, refused_change_keeps_strong); collection never removes an object with pending work (collect_keeps_strong) and flush after collection writes what flush without it writes (collect_flush_db); an unmodified persistent object without application reference is released (collect_releases). Tied to orm/state.py (_strong_obj), identity.py (WeakInstanceDict), session.py by a differential run on a real Session with real reference drops and gc.collect(); the property is re-checked verbatim by a twin run in which nothing can be collected and by a dict reference.",
-    "note": "Trusted: Lean kernel; correspondence (sampling + exhaustive short sequences); CPython reference counting + gc.collect() as the garbage collector; SQLite. Sessions with autobegin=False (explicit begin, changes refused outside a transaction) and partial expire are part of the histories; a second known finding: a refused change of an EXPIRED attribute writes NULL at the next flush (the history stops there). Objects are flat (no relationship reachability between mapped objects), mutable-extension and pending-mutation references are not modelled. len(identity_map) is compared with the model only (release is a 'may' in the property, not checked by the oracle). gc_unobservable is a _partial theorem (hypothesis: no rollback() and no failing flush in the history) with a proved counterexample.",
+    "note": "Savepoints (depth 1): begin_nested_flushes, flush_leaves_no_work, flush_writes_pending_change, savepoint_rollback_restores_flushed_state and outer_change_survives_savepoint_rollback (both semantics, any operations inside the savepoint) say a change pending at begin_nested() is in the database after the savepoint's rollback; third known finding: the nested transaction's _dirty is weak, an instance re-loaded after the one flushed inside the savepoint was collected keeps the discarded value after the savepoint's rollback (savepoint_stale_counterexample). Nested savepoints, autoflush=True and the re-attachment of objects whose deletion is rolled back are not modelled. Trusted: Lean kernel; correspondence (sampling + exhaustive short sequences); CPython reference counting + gc.collect() as the garbage collector; SQLite. Sessions with autobegin=False (explicit begin, changes refused outside a transaction) and partial expire are part of the histories; a second known finding: a refused change of an EXPIRED attribute writes NULL at the next flush (the history stops there). Objects are flat (no relationship reachability between mapped objects), mutable-extension and pending-mutation references are not modelled. len(identity_map) is compared with the model only (release is a 'may' in the property, not checked by the oracle). gc_unobservable is a _partial theorem (hypothesis: no rollback() and no failing flush in the history) with a proved counterexample.",
     "technique": "Lean 4 simulation proof (GC vs no-GC semantics) + differential correspondence with real reference drops + metamorphic twin run",
     "design_ref": "DESIGN.md §3 C30–C48 (C48)",
 }
@@ -56,6 +63,16 @@ class World:
 
         self.sa = sa
         self.engine = sa.create_engine("sqlite:///" + os.path.join(_tmpdir(), "c48.db"))
+
+        # SAVEPOINT on pysqlite (the documented recipe): the driver must not manage transactions
+        @sa.event.listens_for(self.engine, "connect")
+        def _connect(dbapi_connection, connection_record):
+            dbapi_connection.isolation_level = None
+
+        @sa.event.listens_for(self.engine, "begin")
+        def _begin(conn):
+            conn.exec_driver_sql("BEGIN")
+
         Base = declarative_base()
         from harness.lib_orm2 import odd_mixin
 
@@ -88,7 +105,8 @@ def world():
 
 KEY_PHANTOM = "instance-reloaded-after-gc-of-inserted-one-survives-rollback-as-phantom"
 KEY_NULLW = "refused-change-of-expired-attribute-autobegin-off-writes-null-at-next-flush"
-KNOWN_KEYS = (KEY_PHANTOM, KEY_NULLW)
+KEY_STALE = "instance-reloaded-after-gc-of-one-flushed-in-savepoint-keeps-stale-value-after-savepoint-rollback"
+KNOWN_KEYS = (KEY_PHANTOM, KEY_NULLW, KEY_STALE)
 
 
 def run_history(case, keepalive=False):
@@ -114,7 +132,14 @@ def _run_history(case, keepalive):
     T = w.T
     n, eoc, ops = case["n"], case["eoc"], case["ops"]
     ab = case.get("ab", 1)
-    sess = Session(w.engine, autoflush=False, expire_on_commit=bool(eoc), autobegin=bool(ab))
+    # autoflush is off in both modes: Session(autoflush=False), or an autoflush Session used
+    # inside a no_autoflush block
+    af = case.get("af", 0)
+    sess = Session(w.engine, autoflush=bool(af), expire_on_commit=bool(eoc), autobegin=bool(ab))
+    noaf = sess.no_autoflush if af else None
+    if noaf is not None:
+        noaf.__enter__()
+    sp_expect = [None]  # the application's view of the table when the open savepoint was taken
     handles = {}  # the application's references
     graveyard = []  # twin only
     pending_pks, deleted_pks = set(), set()
@@ -139,11 +164,12 @@ def _run_history(case, keepalive):
         if keepalive:
             graveyard.append(o)
 
-    def after_rollback():
+    def after_rollback(nested=False):
         pending_pks.clear()
         deleted_pks.clear()
         expect.clear()
-        expect.update(committed)
+        expect.update(sp_expect[0] if nested else committed)
+        sp_expect[0] = None
         # handles to expunged pending objects are useless to the application
         for k, o in list(handles.items()):
             st = inspect(o)
@@ -258,11 +284,41 @@ def _run_history(case, keepalive):
                             outs.append("d")
                         else:
                             outs.append("-")
-                    elif kind in ("flush", "commit"):
+                    elif kind == "bn":
+                        if sp_expect[0] is not None:
+                            outs.append("-")
+                        else:
+                            sess.begin_nested()  # flushes, whatever the autoflush setting
+                            pending_pks.clear()
+                            deleted_pks.clear()
+                            now = table()
+                            outs.append("d" + showdb(now))
+                            exp = {k: v for k, v in expect.items() if k != "dup"}
+                            if now != exp or "dup" in expect:
+                                problems.append(("pending-change-lost", "begin_nested succeeded; table %s, the application's changes say %s" % (now, expect)))
+                            sp_expect[0] = dict(exp)
+                    elif kind == "rbn":
+                        if sp_expect[0] is None:
+                            outs.append("-")
+                        else:
+                            sess.get_nested_transaction().rollback()
+                            want = dict(sp_expect[0])
+                            after_rollback(nested=True)
+                            now = table()
+                            outs.append("d" + showdb(now))
+                            if now != want:
+                                problems.append(("pending-change-lost", "savepoint rolled back; table %s, the application's changes before the savepoint say %s" % (now, want)))
+                    elif kind == "rel" and sp_expect[0] is None:
+                        outs.append("-")
+                    elif kind in ("flush", "commit", "rel"):
                         if kind == "flush":
                             sess.flush()
+                        elif kind == "rel":
+                            sess.get_nested_transaction().commit()
+                            sp_expect[0] = None
                         else:
                             sess.commit()
+                            sp_expect[0] = None
                         pending_pks.clear()
                         deleted_pks.clear()
                         now = table()
@@ -276,6 +332,7 @@ def _run_history(case, keepalive):
                     elif kind == "rollback":
                         sess.connection()  # make sure a transaction is open: rollback() is a pass-through otherwise
                         sess.rollback()
+                        sp_expect[0] = None
                         after_rollback()
                         now = table()
                         outs.append("d" + showdb(now))
@@ -288,11 +345,24 @@ def _run_history(case, keepalive):
                     else:
                         raise ValueError(op)
                 except (IntegrityError, StaleDataError, ObjectDeletedError) as e:
-                    sess.rollback()
+                    # a failing flush rolls back to the nearest boundary: only the savepoint when
+                    # one is open (the application then closes the nested transaction)
+                    nt = sess.get_nested_transaction()
+                    in_sp = sp_expect[0] is not None
+                    if in_sp != (nt is not None):
+                        problems.append(("savepoint-bookkeeping", "op %s raised %s; savepoint open by the history: %s, nested transaction: %r" % (op, type(e).__name__, in_sp, nt)))
+                    if nt is not None:
+                        nt.rollback()
+                    else:
+                        sess.rollback()
                     if "dup" not in expect:
                         problems.append(("unjustified-flush-error", "op %s raised %s" % (op, type(e).__name__)))
-                    after_rollback()
-                    outs.append("integrity" + showdb(table()))
+                    want = dict(sp_expect[0]) if in_sp else dict(committed)
+                    after_rollback(nested=in_sp)
+                    now = table()
+                    if now != want:
+                        problems.append(("pending-change-lost" if in_sp else "rollback-left-changes", "op %s failed and was rolled back%s; table %s, expected %s" % (op, " to the savepoint" if in_sp else "", now, want)))
+                    outs.append("integrity" + showdb(now))
                 o = None
                 cur = None
                 e = None
@@ -300,7 +370,7 @@ def _run_history(case, keepalive):
                     gc.collect()
                 if stop:
                     break  # what the next flush does to that row is the defect, not this property
-                if kind == "rollback" or outs[-1].startswith("integrity"):
+                if kind in ("rollback", "rbn") or outs[-1].startswith("integrity"):
                     # known defect: an instance re-loaded after the one the transaction inserted was
                     # garbage collected is unknown to the transaction and survives its rollback
                     rows_now = table()
@@ -308,8 +378,21 @@ def _run_history(case, keepalive):
                     if ph:
                         problems.append((KEY_PHANTOM, "after %s the identity map still holds instances %s whose rows were rolled back" % (kind, ph)))
                         break  # the rest of the history runs on a session the reference semantics cannot have
+                    # known defect: the same for `_dirty` of a savepoint: an instance re-loaded after the one
+                    # a flush inside the savepoint wrote was collected is not expired by the savepoint's rollback
+                    stale = []
+                    for key in sess.identity_map.keys():
+                        ob = sess.identity_map.get(key)
+                        if ob is not None and not inspect(ob).modified and "val" in ob.__dict__ and rows_now.get(key[1][0], "gone") != ob.__dict__["val"]:
+                            stale.append((key[1][0], ob.__dict__["val"], rows_now.get(key[1][0])))
+                    ob = None
+                    if stale:
+                        problems.append((KEY_STALE, "after %s unmodified instances hold values the rollback discarded (key, value, row): %s" % (kind, sorted(stale))))
+                        break
     finally:
         try:
+            if noaf is not None:
+                noaf.__exit__(None, None, None)
             sess.close()
         except Exception:
             pass
@@ -324,7 +407,7 @@ def request(case, gcflag=1):
 
 
 # ---------------------------------------------------------------------- generators
-def gen_random(rng, tier, ab=1):
+def gen_random(rng, tier, ab=1, sp=True):
     n = rng.choice([1, 2, 3])
     ops = []
     if not ab:
@@ -359,14 +442,16 @@ def gen_random(rng, tier, ab=1):
             ops.append(("expa", k))
         elif r < 0.73:
             ops.append(("expi", k))
-        elif r < 0.82:
+        elif r < 0.80:
             ops.append(("flush",))
-        elif r < 0.89:
+        elif r < 0.86:
             ops.append(("commit",))
-        elif r < 0.93:
+        elif r < 0.89:
             ops.append(("rollback",))
-        else:
+        elif r < 0.93 or not sp:
             ops.append(("len",))
+        else:
+            ops.append((rng.choice(["bn", "bn", "bn", "rbn", "rbn", "rel"]),))
         if not ab and rng.random() < (0.5 if ops[-1][0] in ("commit", "rollback") else 0.08):
             ops.append(("begin",))
     ops.append(("len",))
@@ -390,6 +475,26 @@ NULLW_OPS = [("begin",), ("add", 0, 2), ("commit",), ("begin",), ("get", 0), ("c
 PHANTOM_OPS = [("add", 0, 1), ("flush",), ("drop", 0), ("get", 0), ("rollback",), ("len",), ("set", 0, 5), ("flush",)]
 
 
+SAVEPOINT_DEMO_OPS = [("add", 0, 1), ("add", 1, 2), ("commit",), ("drop", 1), ("get", 0), ("set", 0, 7), ("drop", 0), ("bn",), ("add", 1, 9), ("flush",), ("len",), ("commit",)]
+STALE_OPS = [("add", 0, 1), ("commit",), ("get", 0), ("bn",), ("set", 0, 5), ("flush",), ("drop", 0), ("get", 0), ("rbn",), ("get", 0)]
+
+
+def small_scope_savepoint(length):
+    """two committed rows, both loaded; every sequence over changes, drops, begin_nested, the two
+    ways out of the savepoint, flush (failing when a duplicate key is pending) and reads"""
+    import itertools
+
+    prefix = [("add", 0, 1), ("add", 1, 2), ("add", 2, 3), ("commit",), ("drop", 2), ("get", 0), ("get", 1)]
+    alpha = [("set", 0, 5), ("set", 1, 6), ("drop", 0), ("drop", 1), ("bn",), ("rbn",), ("rel",), ("flush",), ("add", 2, 9), ("add", 3, 8), ("del", 1), ("get", 0), ("rollback",)]
+    for seq in itertools.product(alpha, repeat=length):
+        if ("bn",) in seq:
+            yield prefix + list(seq)
+
+
+# ways a savepoint history ends: commit; release, then roll the whole transaction back; roll the savepoint back
+SAVEPOINT_ENDS = [[("len",), ("commit",)], [("rel",), ("rollback",), ("len",), ("get", 3), ("commit",)], [("rbn",), ("len",), ("get", 0), ("commit",)]]
+
+
 def small_scope_noautobegin():
     """autobegin=False: two loaded objects, no transaction; every 4-op sequence over changes
     (refused or not), drops, begin and flush, then begin + flush + commit"""
@@ -406,10 +511,20 @@ def gen_cases(ctx, deep=False):
     # witness of Props/C48.gc_unobservable_counterexample: replayed every run (known finding)
     yield {"n": 1, "eoc": 0, "ops": PHANTOM_OPS, "src": "phantom"}
     yield {"n": 1, "eoc": 1, "ab": 0, "ops": NULLW_OPS, "src": "nullw"}
+    yield {"n": 1, "eoc": 0, "ops": STALE_OPS, "src": "stale"}
+    for af in (0, 1):
+        yield {"n": 2, "eoc": 1, "af": af, "ops": SAVEPOINT_DEMO_OPS, "src": "savepoint-demo"}
     for _ in range(2000 if thorough else 450):
         ab = ctx.rng.choice([1, 1, 0])
         n, ops = gen_random(ctx.rng, ctx.tier, ab)
-        yield {"n": n, "eoc": ctx.rng.choice([0, 1] if ab else [0, 0, 0, 1]), "ab": ab, "ops": ops, "src": "random"}
+        yield {"n": n, "eoc": ctx.rng.choice([0, 1] if ab else [0, 0, 0, 1]), "ab": ab, "af": ctx.rng.choice([0, 0, 1]), "ops": ops, "src": "random"}
+    for seq in small_scope_savepoint(3):
+        if thorough or ctx.rng.random() < 0.25:
+            yield {"n": 4, "eoc": ctx.rng.choice([0, 1]), "af": ctx.rng.choice([0, 1]), "ops": seq + ctx.rng.choice(SAVEPOINT_ENDS), "src": "small-savepoint3"}
+    if thorough:
+        for seq in small_scope_savepoint(4):
+            if ctx.rng.random() < 0.08:
+                yield {"n": 4, "eoc": ctx.rng.choice([0, 1]), "af": ctx.rng.choice([0, 1]), "ops": seq + ctx.rng.choice(SAVEPOINT_ENDS), "src": "small-savepoint4"}
     for seq in small_scope_noautobegin():
         if ctx.rng.random() < (0.5 if thorough else 0.15):
             yield {"n": 2, "eoc": 0, "ab": 0, "ops": seq, "src": "small-noautobegin"}
@@ -439,6 +554,11 @@ def check_case(case):
     if any(k in KNOWN_KEYS for k, _ in problems):
         # the history stopped where the known defect appeared; compare that prefix only
         case = dict(case, ops=case["ops"][:nexec])
+        # the two weak-dictionary defects need a collection: in the twin, where nothing is collected,
+        # the same prefix must show neither a phantom nor a stale value
+        if any(k in (KEY_PHANTOM, KEY_STALE) for k, _ in problems):
+            _, tprobs = run_history(case, keepalive=True)
+            problems += [("without-collection:" + k, d) for k, d in tprobs if k in (KEY_PHANTOM, KEY_STALE)]
     others = [p for p in problems if p[0] not in KNOWN_KEYS]
     if not others and nexec == len(case["ops"]):
         touts, tprobs = run_history(case, keepalive=True)
@@ -469,7 +589,8 @@ def _budget_exhausted(ctx, t0, n):
 
 def run(ctx, deep=False):
     ctx.rule = (
-        "histories of get/set/delete/add/expire/flush/commit/rollback/len(identity_map) interleaved with the application dropping its references "
+        "histories of get/set/delete/add/expire/flush/commit/rollback/begin_nested/savepoint rollback/savepoint release/len(identity_map) (autoflush off by Session(autoflush=False) or a no_autoflush block; "
+        "all 3-op (25% quick) and 8% of the 4-op (thorough) sequences containing begin_nested over a 13-letter savepoint alphabet, each ended by commit, release + rollback, or savepoint rollback) interleaved with the application dropping its references "
         "(gc.collect() after every operation) on a real Session over SQLite, 1-3 rows, expire_on_commit on/off; random (seeded) + all 2-op (12% quick / "
         "all thorough 3-op, 15% thorough 4-op) sequences over a 13-letter alphabet; each history also runs as a twin in which nothing can be collected; "
         "non-trivial = a flush happened after a reference drop"
